@@ -166,6 +166,13 @@ class State:
         return s
 
 
+class _Deferred:
+    """A test the caller computed and passed as an argument; it is decided where the callee branches on it."""
+
+    def __init__(self, expr):
+        self.expr = expr
+
+
 class Layout:
     """Engine instance: domains + source recognition + path enumeration."""
 
@@ -309,6 +316,8 @@ class Layout:
                 and isinstance(node.generators[0].target, ast.Name):
             # a comprehension over a literal sequence is the sequence of its element expressions
             seq = self.ev(st, node.generators[0].iter)
+            if isinstance(seq, tuple) or (isinstance(seq, str) and len(seq) <= 16):
+                seq = list(seq)  # (a constant string is the sequence of its characters)
             if not isinstance(seq, list):
                 return Opaque(f"comprehension over {U(node.generators[0].iter)}")
             var = node.generators[0].target.id
@@ -438,6 +447,10 @@ class Layout:
         args = node.args
         if name in self.helpers:
             raise _NeedCall(node)
+        if name == "getattr" and len(args) == 2 and not node.keywords:
+            key = self.ev(st, args[1])
+            if isinstance(key, str) and key.isidentifier():
+                return self.ev(st, ast.copy_location(ast.Attribute(value=args[0], attr=key, ctx=ast.Load()), node))  # getattr(obj, "name") is obj.name
         if isinstance(f, ast.Attribute) and isinstance(f.value, ast.Name) and self.method_of is not None:
             recv = self.ev(st, f.value)
             if isinstance(recv, dict) and isinstance(recv.get("__class__"), str):
@@ -473,6 +486,8 @@ class Layout:
                 return out
             return Opaque(f"join {U(node)[:40]}")
         meth = None
+        if isinstance(f, ast.Name) and st.env.get(f.id) in (str.ljust, str.rjust, str.center) and len(args) >= 2 and not node.keywords:
+            return self._justify(st, st.env[f.id].__name__, self.ev(st, args[0]), self.ev(st, args[1]), node)
         if name in ("str.ljust", "str.rjust", "str.center") and len(args) >= 2:
             meth, base, n = name.split(".")[1], self.ev(st, args[0]), try_fold(args[1], self.consts)
             if not isinstance(n, int):
@@ -507,6 +522,8 @@ class Layout:
     # ---------------------------------------------------------------- tests
     def test(self, st: State, node):
         """-> list of (state, bool)."""
+        if isinstance(node, ast.Name) and isinstance(st.env.get(node.id), _Deferred):
+            return self.test(st, st.env[node.id].expr)  # a test computed by the caller and handed in as an argument: decided (and refined) here
         if isinstance(node, ast.BoolOp):
             res = []
             todo = [(st, 0)]
@@ -653,9 +670,37 @@ class Layout:
             if nc.fdef is not None:
                 sub.env[params[0]] = nc.selfobj
                 params = params[1:]
-            for p_, a_ in zip(params, nc.node.args):
+            elif U(nc.node.func).startswith(("self.", "cls.")) and params and params[0] in ("self", "cls") and not any(
+                    U(d) == "staticmethod" for d in h.decorator_list):
+                params = params[1:]  # a method of the object being formatted: `self.<field>` inside it denotes the same fields
+            if len(nc.node.args) > len(params) or any(k.arg not in params for k in nc.node.keywords):
+                raise AnalysisError(f"layout: cannot bind the arguments of {U(nc.node.func)}")
+            bound_exprs = dict(zip(params, nc.node.args))
+            bound_exprs.update({k.arg: k.value for k in nc.node.keywords})
+            defaults = dict(zip([a.arg for a in h.args.args][len(h.args.args) - len(h.args.defaults):], h.args.defaults))
+            for p_ in params:
+                a_ = bound_exprs.get(p_, defaults.get(p_))
+                if a_ is None:
+                    raise AnalysisError(f"layout: missing argument {p_!r} of {U(nc.node.func)}")
+                if p_ in bound_exprs and isinstance(a_, ast.Name) and a_.id == p_ and a_.id not in st.env:
+                    continue  # a free variable of the caller handed on under the same name stays free (both values are explored where it is tested)
+                if p_ not in bound_exprs and U(a_) in ("str.ljust", "str.rjust", "str.center"):
+                    sub.env[p_] = getattr(str, U(a_).split(".")[1])
+                    continue
+                if U(a_) in ("str.ljust", "str.rjust", "str.center"):
+                    sub.env[p_] = getattr(str, U(a_).split(".")[1])
+                    continue
+                if p_ in bound_exprs and (isinstance(a_, (ast.Compare, ast.BoolOp)) or (isinstance(a_, ast.UnaryOp) and isinstance(a_.op, ast.Not))):
+                    import copy as _copy
+                    e2 = _copy.deepcopy(a_)
+                    for n_ in ast.walk(e2):
+                        if isinstance(n_, ast.Name) and n_.id in st.env:
+                            sub.env["__c_" + n_.id] = st.env[n_.id]
+                            n_.id = "__c_" + n_.id
+                    sub.env[p_] = _Deferred(e2)
+                    continue
                 try:
-                    sub.env[p_] = self.ev(st, a_)
+                    sub.env[p_] = self.ev(st if p_ in bound_exprs else State(env={}, refine={}), a_)
                 except _NeedCall:
                     raise AnalysisError("layout: nested helper calls in one argument list")
                 except _NeedFork as nf:
@@ -699,6 +744,19 @@ class Layout:
                 out.extend(self.run(stmt.body if val else stmt.orelse, s2, on_expr))
             return out
         if isinstance(stmt, ast.Expr):
+            c = stmt.value
+            if isinstance(c, ast.Call) and isinstance(c.func, ast.Attribute) and isinstance(c.func.value, ast.Name) and isinstance(st.env.get(c.func.value.id), list):
+                # the pieces of the line collected in a local list
+                lst = st.env[c.func.value.id]
+                if c.func.attr == "append" and len(c.args) == 1 and not c.keywords:
+                    st.env[c.func.value.id] = lst + [self.ev(st, c.args[0])]
+                    return [st]
+                if c.func.attr == "extend" and len(c.args) == 1 and not c.keywords:
+                    more = self.ev(st, c.args[0])
+                    if isinstance(more, (list, tuple)):
+                        st.env[c.func.value.id] = lst + list(more)
+                        return [st]
+                raise AnalysisError(f"layout: unsupported operation on the list of pieces: {U(c)[:60]}")
             if on_expr is not None:
                 on_expr(self, st, stmt)
             return [st]
